@@ -3,7 +3,7 @@ Require Import Base.Prelude C11.Model C11.Proofs C11.Generated C11.Spec C11.Brid
 Require Import String.
 Local Open Scope string_scope.
 
-(* module_writes = [], default_arg_writes = [], global_rebinds = [], func_attr_writes = [], cache_decorated = [],
+(* module_writes = [], default_arg_writes = [], argument_writes = [], global_rebinds = [], func_attr_writes = [], cache_decorated = [],
    parallel_kernels = [], every prange user is jitted without parallel=True, every jitted closure is re-created
    per call, every global-RNG draw is preceded by np.random.seed(<seed parameter>) (except bump) *)
 Theorem C11_generated_obligations : obligations = true.
